@@ -212,9 +212,10 @@ def kind_of(item: dict | None) -> str:
 
 
 def _tc_commas(node, out):
-    """Byte offsets of formals trailing commas that tree-sitter-nix 0.1.0 reports as a MISSING formal."""
+    """Byte extents of formals trailing commas that tree-sitter-nix 0.1.0 reports as a MISSING formal or as
+    an ERROR node holding just the comma (comments may sit between the comma and the closing brace)."""
     if node.type == "formals":
-        ch = node.children
+        ch = [c for c in node.children if c.type != "comment"]
         for i, c in enumerate(ch):
             if c.type == "formal" and c.child_count >= 1 and c.children[0].is_missing and i > 0 and ch[i - 1].type == ",":
                 out.append((ch[i - 1].start_byte, ch[i - 1].end_byte))
@@ -242,3 +243,205 @@ def has_error_mod_tc(text: str | bytes) -> bool:
         for s, e in sorted(spans, reverse=True):
             b = b[:s] + b[e:]
     return True
+
+
+# ---------------------------------------------------------------------------
+# doc(text): the Doc.tla record
+
+_IDENT = re.compile(r"^[A-Za-z_][A-Za-z0-9_'-]*$")
+_ESC = {"n": "\n", "r": "\r", "t": "\t"}
+
+
+def nix_decode(body: str) -> str:
+    """What Nix reads for the body of a "..." literal without interpolation (independent decoder)."""
+    out, i = [], 0
+    while i < len(body):
+        ch = body[i]
+        if ch == "\\" and i + 1 < len(body):
+            nx = body[i + 1]
+            out.append(_ESC.get(nx, nx))
+            i += 2
+            continue
+        out.append(ch)
+        i += 1
+    return "".join(out)
+
+
+def _text(node, b) -> str:
+    return b[node.start_byte:node.end_byte].decode("utf-8", "replace")
+
+
+def _attr_names(attrpath, b) -> list[str]:
+    names = []
+    for c in attrpath.children:
+        if c.type == "identifier":
+            names.append(_text(c, b))
+        elif c.type == "string_expression":
+            if any(x.type == "interpolation" for x in c.children):
+                names.append("${dyn}" + _text(c, b))
+            else:
+                names.append(nix_decode(_text(c, b)[1:-1]))
+        elif c.type == "interpolation":
+            names.append("${dyn}" + _text(c, b))
+    return names
+
+
+def _tok_text(node, b) -> str:
+    lv: list = []
+    _leaves(node, b, lv)
+    lv.sort(key=lambda x: (x[2], x[3]))
+    return " ".join(b[s:e].decode("utf-8", "replace") for k, c, s, e, t, q in lv if k == "t")
+
+
+def _val(node, b) -> dict:
+    t = node.type
+    if t == "integer_expression":
+        v = int(_text(node, b))
+        if abs(v) < 2 ** 31:
+            return {"k": "int", "v": v}
+    if t == "variable_expression":
+        n = _text(node, b)
+        if n not in ("true", "false", "null"):
+            return {"k": "ref", "n": n}
+    if t in ("attrset_expression", "rec_attrset_expression"):
+        return _set(node, b)
+    return {"k": "opq", "h": _tok_text(node, b)}
+
+
+def _set_items(bs_children, b, open_end: int | None) -> tuple[list, list]:
+    """items of a binding_set (children incl. comments), with lead / eol comments and blank flags."""
+    its: list[dict] = []
+    lead: list[str] = []
+    prev_end = open_end
+    prev_row = None
+    first_of_group_start = None
+    blank = False
+    for c in bs_children:
+        if c.type == "comment":
+            key = comment_key(_text(c, b))
+            if its and prev_row is not None and c.start_point.row == prev_row and not lead:
+                its[-1]["eol"] = (its[-1]["eol"] + " " + key).strip() if its[-1]["eol"] else key
+                prev_end = c.end_byte
+                continue
+            if not lead and prev_end is not None:
+                blank = b[prev_end:c.start_byte].count(b"\n") >= 2
+            lead.append(key)
+            prev_end = c.end_byte
+            prev_row = None
+            continue
+        if c.type not in ("binding", "inherit", "inherit_from"):
+            continue
+        if not lead and prev_end is not None:
+            blank = b[prev_end:c.start_byte].count(b"\n") >= 2
+        if c.type == "binding":
+            ap = c.child_by_field_name("attrpath") or next(x for x in c.children if x.type == "attrpath")
+            vn = c.child_by_field_name("expression") or [x for x in c.named_children if x.type not in ("attrpath", "comment")][-1]
+            it = {"k": "b", "ap": _attr_names(ap, b), "val": _val(vn, b), "lead": lead, "eol": "", "blank": blank}
+            inner = [comment_key(_text(x, b)) for x in c.children if x.type == "comment"]
+            if inner:
+                it["inner"] = inner
+        else:
+            names = []
+            src = ""
+            for x in c.named_children:
+                if x.type == "inherited_attrs":
+                    for y in x.named_children:
+                        names.append(_text(y, b) if y.type == "identifier" else nix_decode(_text(y, b)[1:-1]))
+                elif x.type != "comment":
+                    src = _tok_text(x, b)
+            it = {"k": "i", "src": src, "names": names, "lead": lead, "eol": "", "blank": blank}
+        its.append(it)
+        lead = []
+        blank = False
+        prev_end = c.end_byte
+        prev_row = c.end_point.row
+    return its, lead
+
+
+def _set(node, b) -> dict:
+    rec = node.type == "rec_attrset_expression"
+    bs = next((c for c in node.children if c.type == "binding_set"), None)
+    opener = next(c for c in node.children if c.type == "{")
+    kids = []
+    for c in node.children:
+        if c.type == "binding_set":
+            kids.extend(c.children)
+        elif c.type == "comment":
+            kids.append(c)
+    kids.sort(key=lambda x: x.start_byte)
+    its, dang = _set_items(kids, b, opener.end_byte)
+    return {"k": "set", "rec": rec, "ml": b"\n" in b[node.start_byte:node.end_byte], "items": its, "dang": dang}
+
+
+_FUNCTIONLIKE = {"variable_expression", "select_expression", "apply_expression", "function_expression"}
+
+
+def _strip_paren(node):
+    n = 0
+    while node.type == "parenthesized_expression":
+        node = node.child_by_field_name("expression") or node.named_children[0]
+        n += 1
+    return node, n
+
+
+def doc(text: str | bytes) -> dict:
+    root, b = cst(text)
+    d = {"shape": "ok", "wrap": [], "layers": [], "body": {"k": "set", "rec": False, "ml": False, "items": [], "dang": []},
+         "lead": [], "trail": [], "nl": 0}
+    tail = b.decode("utf-8", "replace")
+    d["nl"] = min(3, len(tail) - len(tail.rstrip("\n")))
+    if root.has_error:
+        d["shape"] = "error"
+        return d
+    exprs = [c for c in root.children if c.type != "comment"]
+    if not exprs:
+        d["shape"] = "empty"
+        return d
+    if len(exprs) != 1:
+        d["shape"] = "noneditable"
+        return d
+    e = exprs[0]
+    d["lead"] = [comment_key(_text(c, b)) for c in root.children if c.type == "comment" and c.start_byte < e.start_byte]
+    d["trail"] = [comment_key(_text(c, b)) for c in root.children if c.type == "comment" and c.start_byte >= e.end_byte]
+    node = e
+    pending: list = []
+    envs: list = []           # every let seen, outermost first (for scoping): [{"at": len(wrap), "items": ...}]
+
+    def flush():
+        for p in pending:
+            d["wrap"].append("let")
+        pending.clear()
+    while True:
+        t = node.type
+        if t == "let_expression":
+            bs = next((c for c in node.children if c.type == "binding_set"), None)
+            let_tok = next(c for c in node.children if c.type == "let")
+            kids = [c for c in node.children if c.type == "comment" and c.start_byte < (node.child_by_field_name("body").start_byte)]
+            kids += list(bs.children) if bs is not None else []
+            kids.sort(key=lambda x: x.start_byte)
+            its, dang = _set_items([k for k in kids if k.start_byte < next(c for c in node.children if c.type == "in").start_byte], b, let_tok.end_byte)
+            pending.append(its)
+            node = node.child_by_field_name("body")
+        elif t == "function_expression":
+            flush()
+            d["wrap"].append("lam_formals" if any(c.type == "formals" for c in node.children) else "lam_id")
+            node = node.child_by_field_name("body")
+        elif t == "with_expression":
+            flush(); d["wrap"].append("with"); node = node.child_by_field_name("body")
+        elif t == "assert_expression":
+            flush(); d["wrap"].append("assert"); node = node.child_by_field_name("body")
+        elif t == "parenthesized_expression":
+            flush(); d["wrap"].append("paren"); node = node.child_by_field_name("expression") or node.named_children[0]
+        elif t == "apply_expression":
+            fn, _ = _strip_paren(node.child_by_field_name("function"))
+            if fn.type not in _FUNCTIONLIKE:
+                d["shape"] = "noneditable"
+                return d
+            flush(); d["wrap"].append("call"); node = node.child_by_field_name("argument")
+        elif t in ("attrset_expression", "rec_attrset_expression"):
+            d["body"] = _set(node, b)
+            d["layers"] = [p for p in pending if p]      # a binding-less let is no layer
+            return d
+        else:
+            d["shape"] = "noneditable"
+            return d
